@@ -41,6 +41,16 @@ CHECKS = {
         technique="model-based stateful property testing with injected redundant/invalid updates",
         text="C08 histories with ~15% redundant or invalid updates at any position; redundant must be Ok and without effect, invalid must be rejected by the update call itself, all later answers must match the model that ignored them.",
         note="trusted: oracle.rs, the set model; fault kinds are those the property lists"),
+    "C15": dict(
+        cat="exploration", ref="4 C15",
+        technique="model-based property testing of operation sequences; differential between three backends; brute-force SAT oracle",
+        text="Generated add_clause/reserve/solve/solve_under_assumptions sequences (assumptions also on unseen and only-reserved variables, empty clause, structured prefixes) on CadicalSolver, ExternalSatSolver(fake_sat with strict DIMACS validation) and ExternalSatSolver(kissat) when installed; every verdict and model checked against brute force over the accumulated clauses and that call's assumptions.",
+        note="trusted: brute force over <=2^14 assignments, fake_sat's validator; kissat optional (absence lowers coverage only)"),
+    "C16": dict(
+        cat="exploration", ref="4 C16",
+        technique="property-based testing through a harness-owned external solver process (strict DIMACS validator, generated reply volume / I/O order / reply grammar) with a reference reply parser",
+        text="Argumentation queries through ExternalSatSolver(fake_sat): every DIMACS text validated strictly inside the child; reply volume 20 B-1 MiB via comment padding, v-line widths, read-first/write-first/interleaved I/O, CRLF; models above 64 KiB via 8k-30k argument chains; generated well- and ill-formed replies replayed verbatim and compared with an independent reply parser (Sat(model)/Unsat/Invalid/Unspecified). 20 s per-call watchdog consulting the child's progress log: a blocked write of >64 KiB is a violation, any other expiry is inconclusive.",
+        note="trusted: fake_sat validator, reference reply parser; kernel scheduling not enumerated (the harness owns the child's side of the interleaving only)"),
 }
 
 NOT_YET = "check not built yet in this session (work in progress; see DESIGN.md section 4 for the planned check)"
